@@ -4806,7 +4806,7 @@ xpath_normalize_space(struct lyxp_set **args, uint32_t arg_count, struct lyxp_se
     /* is there any normalization necessary? */
     for (i = 0; set->val.str[i]; ++i) {
         if (is_xmlws(set->val.str[i])) {
-            if ((i == 0) || space_before || (!set->val.str[i + 1])) {
+            if ((i == 0) || space_before || (!set->val.str[i + 1]) || (set->val.str[i] != ' ')) {
                 have_spaces = 1;
                 break;
             }
